@@ -2,11 +2,13 @@
 Asserted over the process-group / terminal model of osmodel.py: every child calls setpgid(0, g) with g = the first
 stage's pid; while a foreground tty job is waited for the terminal's foreground group is that job's group; when
 run_proc returns it is the shell's group again on every path (also when tcsetpgrp fails once); a background pipeline
-never receives the terminal and is not waited for."""
+never receives the terminal and is not waited for; the signal mask
+(pthread_sigmask model) of the shell is restored after every terminal hand-over and no child execs with job-control
+signals blocked (otherwise Ctrl-Z cannot stop it)."""
 import oswrap
 oswrap.make(globals(), 'C07', ('pipe',), [
     'claimed at call-sequence level only: the kernel\'s delivery of Ctrl-C/Ctrl-Z, real process states and the pty are outside; the fg/bg/jobs builtins and the main-loop polling are not encoded',
     'wait_fg_job is a stub returning any status (its behaviour is C06); tcsetpgrp may fail once (solver\'s choice)',
     'lines: 1..3 external stages (thorough 5), builtins in every position, background, not-found',
 ], ('process-group', 'terminal-not-given-to-job', 'terminal-not-returned', 'background-job-got-terminal', 'background-job-waited',
-    'foreground-not-waited', 'waited-wrong-pids'), keep=lambda s: not s.get('capture'), extra_fds=(), tc_faults=True, faults=(False, True), native=False)
+    'foreground-not-waited', 'waited-wrong-pids', 'shell-signal-mask-not-restored', 'child-inherits-blocked-signals'), keep=lambda s: not s.get('capture'), extra_fds=(), tc_faults=True, faults=(False, True), native=False)
